@@ -90,6 +90,31 @@ def goal(g, names, ctx):
         # a closure body is written as ONE clause
         body = g[1]
         return "closure { %s }" % (goal(body[0], names, ctx) if len(body) == 1 else "[" + goals(body, names, ctx) + "]")
+    if tag == "twice":
+        # the goal value is built ONCE by a generated Rust function and used two times (helper `twice`)
+        def ids(x, bound, acc):
+            if isinstance(x, list):
+                if len(x) == 2 and x[0] == "var" and isinstance(x[1], int):
+                    if x[1] not in bound:
+                        acc.add(x[1])
+                    return
+                if x and x[0] == "fresh":
+                    ids(x[2], bound | set(x[1]), acc)
+                    return
+                for y in x:
+                    ids(y, bound, acc)
+        free = set()
+        ids(g[1], set(), free)
+        free = sorted(free)
+        k = len(ctx["extra"])
+        fname = "%stw%d" % (ctx["mangle"], k)
+        params = ", ".join("%s: LTerm<U, E>" % vname(i, names) for i in free)
+        args = ", ".join(vname(i, names) for i in free)
+        ctx["extra"].append(
+            "fn %s_goal<U: User, E: Engine<U>>(%s) -> Goal<U, E> {\n    proto_vulcan!(%s)\n}\n"
+            "fn %s<U: User, E: Engine<U>>(%s) -> Goal<U, E> {\n    twice(%s_goal(%s))\n}\n"
+            % (fname, params, goal(g[1], names, ctx), fname, params, fname, args))
+        return "%s(%s)" % (fname, args)
     if tag == "project":
         return "project |%s| { %s }" % (", ".join(vname(i, names) for i in g[1]), goals(g[2], names, ctx))
     if tag == "call":
@@ -136,6 +161,12 @@ use proto_vulcan::operator::{cond, conda, condu, dfs, matcha, matche, matchu, on
 use proto_vulcan::prelude::*;
 use proto_vulcan::relation::*;
 
+/// The goal value `g` two times in a row (a clone of a goal shares the goal object).
+fn twice<U: User, E: Engine<U>>(g: Goal<U, E>) -> Goal<U, E> {
+    let g2 = g.clone();
+    proto_vulcan!([g, g2])
+}
+
 #[compound]
 struct Pair(LTerm, LTerm);
 #[compound]
@@ -147,7 +178,7 @@ struct Tree(LTerm, LTerm, LTerm);
 
 def emit_case(n, case):
     names = case.get("names", {})
-    ctx = {"defs": case.get("defs", {}) or {}, "mangle": "r%d_" % n, "colls": []}
+    ctx = {"defs": case.get("defs", {}) or {}, "mangle": "r%d_" % n, "colls": [], "extra": []}
     out = []
     for dname, d in ctx["defs"].items():
         params = ", ".join("%s: LTerm<U, E>" % vname(p, names) for p in d["params"])
@@ -163,6 +194,7 @@ def emit_case(n, case):
         body = goals(case["body"], names, ctx)
     colls = "".join("    let %s: Vec<LTerm> = vec![%s];\n" % (c, ", ".join("lterm!(%s)" % x for x in xs))
                     for c, xs in ctx["colls"])
+    out.extend(ctx["extra"])
     out.append("fn case_%d(take: usize, after: usize) -> Outcome {\n%s"
                "    let query = proto_vulcan_query!(|%s| { %s });\n"
                "    run_query!(query, [%s], take, after)\n}\n" % (n, colls, ", ".join(qv), body, ", ".join(qv)))
